@@ -1,1 +1,133 @@
-//! (to be filled)
+//! Tracking allocator for the memory oracles (C14): while armed it
+//! * records every live block allocated since arming,
+//! * never hands a freed block back for reuse: freed blocks are poison-filled (0xDD) and quarantined until
+//!   `disarm()`, so a read of freed memory shows up as a content mismatch instead of undefined behaviour,
+//! * records — instead of performing — an invalid or double `dealloc`.
+//! A binary opts in with `#[global_allocator] static A: vcore::talloc::Tracking = vcore::talloc::Tracking;`
+use std::alloc::{GlobalAlloc, Layout, System};
+use std::cell::Cell;
+use std::sync::atomic::{AtomicBool, Ordering};
+use std::sync::Mutex;
+
+pub struct Tracking;
+
+static ARMED: AtomicBool = AtomicBool::new(false);
+thread_local! { static INSIDE: Cell<bool> = const { Cell::new(false) }; }
+
+#[derive(Default)]
+pub struct State {
+    live: Vec<(usize, usize)>,       // (ptr, size) allocated while armed and not freed
+    quarantine: Vec<(usize, usize, usize)>, // (ptr, size, align) freed while armed
+    pub double_free: u64,
+    pub invalid_free: u64,
+    pub size_mismatch: u64,
+    pub allocs: u64,
+    pub frees: u64,
+}
+static STATE: Mutex<Option<State>> = Mutex::new(None);
+
+fn with_state<R>(f: impl FnOnce(&mut State) -> R) -> Option<R> {
+    // bookkeeping allocations must not be tracked (and must not recurse)
+    let already = INSIDE.with(|i| i.replace(true));
+    if already {
+        return None;
+    }
+    let r = {
+        let mut g = STATE.lock().unwrap_or_else(|e| e.into_inner());
+        g.as_mut().map(f)
+    };
+    INSIDE.with(|i| i.set(false));
+    r
+}
+
+unsafe impl GlobalAlloc for Tracking {
+    unsafe fn alloc(&self, layout: Layout) -> *mut u8 {
+        let p = System.alloc(layout);
+        if ARMED.load(Ordering::Relaxed) && !p.is_null() {
+            with_state(|s| {
+                s.allocs += 1;
+                s.live.push((p as usize, layout.size()));
+            });
+        }
+        p
+    }
+    unsafe fn dealloc(&self, ptr: *mut u8, layout: Layout) {
+        if ARMED.load(Ordering::Relaxed) {
+            let handled = with_state(|s| {
+                let a = ptr as usize;
+                if let Some(i) = s.live.iter().position(|b| b.0 == a) {
+                    let (_, size) = s.live.swap_remove(i);
+                    if size != layout.size() {
+                        s.size_mismatch += 1;
+                    }
+                    s.frees += 1;
+                    std::ptr::write_bytes(ptr, 0xDD, size);
+                    s.quarantine.push((a, size, layout.align()));
+                    true
+                } else if s.quarantine.iter().any(|b| b.0 == a) {
+                    s.double_free += 1;
+                    true
+                } else if s.quarantine.iter().any(|b| a > b.0 && a < b.0 + b.1) || s.live.iter().any(|b| a > b.0 && a < b.0 + b.1) {
+                    s.invalid_free += 1; // pointer into the middle of a tracked block
+                    true
+                } else {
+                    false // allocated before arming: not ours to judge
+                }
+            });
+            if handled == Some(true) {
+                return;
+            }
+        }
+        System.dealloc(ptr, layout)
+    }
+    unsafe fn realloc(&self, ptr: *mut u8, layout: Layout, new_size: usize) -> *mut u8 {
+        if ARMED.load(Ordering::Relaxed) {
+            // allocate-copy-free so that the old block is quarantined like any other freed block
+            let new_layout = Layout::from_size_align_unchecked(new_size, layout.align());
+            let np = self.alloc(new_layout);
+            if !np.is_null() {
+                std::ptr::copy_nonoverlapping(ptr, np, layout.size().min(new_size));
+                self.dealloc(ptr, layout);
+            }
+            return np;
+        }
+        System.realloc(ptr, layout, new_size)
+    }
+}
+
+/// Start tracking (fresh state).
+pub fn arm() {
+    INSIDE.with(|i| i.set(true));
+    *STATE.lock().unwrap_or_else(|e| e.into_inner()) = Some(State { live: Vec::with_capacity(256), quarantine: Vec::with_capacity(256), ..Default::default() });
+    INSIDE.with(|i| i.set(false));
+    ARMED.store(true, Ordering::SeqCst);
+}
+
+pub struct Report {
+    pub live_blocks: usize,
+    pub live_bytes: usize,
+    pub double_free: u64,
+    pub invalid_free: u64,
+    pub size_mismatch: u64,
+    pub allocs: u64,
+    pub frees: u64,
+}
+
+/// Number of tracked blocks currently live.
+pub fn live_blocks() -> usize {
+    with_state(|s| s.live.len()).unwrap_or(0)
+}
+
+/// Stop tracking, release the quarantine, report.
+pub fn disarm() -> Report {
+    ARMED.store(false, Ordering::SeqCst);
+    INSIDE.with(|i| i.set(true));
+    let st = STATE.lock().unwrap_or_else(|e| e.into_inner()).take().unwrap_or_default();
+    for (p, size, align) in &st.quarantine {
+        unsafe { System.dealloc(*p as *mut u8, Layout::from_size_align_unchecked(*size, *align)) };
+    }
+    let rep = Report { live_blocks: st.live.len(), live_bytes: st.live.iter().map(|b| b.1).sum(), double_free: st.double_free, invalid_free: st.invalid_free, size_mismatch: st.size_mismatch, allocs: st.allocs, frees: st.frees };
+    drop(st);
+    INSIDE.with(|i| i.set(false));
+    rep
+}
